@@ -100,8 +100,9 @@ AllowedKinds(S, vk, wk, acc) ==
       {"ok"} \cup (IF x.w # {} \/ x.rng THEN {"tainted"} ELSE {})
              \cup (IF x.addr # {} \/ x.xacc THEN {"fail"} ELSE {})
 
-(* ---- what a compilation writes -------------------------------------------- *)
-Post(S, n, e, mo, acc, vk, wk, failed) ==
+(* ---- what a compilation writes ----------------------------------------------
+   seeded: the hill-climb allocator ran (it calls random.seed(1) first); the other allocators never touch the RNG *)
+Post(S, n, e, mo, acc, vk, wk, failed, seeded) ==
     LET new == wk \ WKeysOf(S)
         wc == S.wcache \cup {[k |-> k, own |-> n, mo |-> mo, acc |-> acc] : k \in new}
         am == S.addrmap
@@ -109,7 +110,7 @@ Post(S, n, e, mo, acc, vk, wk, failed) ==
                 \cup {[id |-> <<"w", k, n>>, own |-> n] : k \in new}
                 \cup {[id |-> <<"u", n>>, own |-> n]}
         full == [wcache |-> wc, eqids |-> S.eqids \cup vk, addrmap |-> am,
-                 debugdb |-> S.debugdb \cup {n}, rng |-> mo]
+                 debugdb |-> S.debugdb \cup {n}, rng |-> IF seeded THEN mo ELSE S.rng]
     IN IF failed THEN full ELSE Wipe(full, ClearedAtExit(e))
 
 (* ---- the design as a state machine over the alphabet ---------------------- *)
@@ -123,7 +124,7 @@ Compile(l) ==
            wk == WK[l.mo]
            x == Expo(S, vk, wk, Acc[l.mo])
        IN \E kind \in AllowedKinds(S, vk, wk, Acc[l.mo]) :
-            /\ st' = Post(S, n, l.e, l.mo, Acc[l.mo], vk, wk, kind = "fail")
+            /\ st' = Post(S, n, l.e, l.mo, Acc[l.mo], vk, wk, kind = "fail", TRUE)
             /\ hist' = Append(hist, l)
             /\ res' = Append(res, [kind |-> kind, mo |-> l.mo, expo |-> x])
 Next == \E l \in Letters : Compile(l)
